@@ -12,6 +12,10 @@ CONTEXT_CASE_CORPUS = ['DR.WHO', 'NO.1DAD', 'FIRST.LAST', 'hey:P', 'Dr.WHO', 'no
 # one password with two segments of a kind whose lengths are both new at that point of the list (a fresh list starts with them)
 # one context-sensitive string twice (or overlapping with itself) in one still-unlabelled section
 REPEATED_CONTEXT_CORPUS = ['<3<3', 'xo<3xo<3', 'Mr.Mr.Big', 'Dr.Jekyll&Dr.Hyde', '*0*0*', '#1#1', ';p;p;p']
+# several detectors firing in one password, with sections already labelled before and behind the one a detector splits (the splice
+# of a detector's result into the section list)
+DETECTOR_ORDER_CORPUS = ['bob@aol.com#1qaz', 'Bob@AOL.com2019!1qaz', '1qazbob@aol.com#', 'www.google.com/1qaz2wsx', '1qaz2wsxwww.google.com',
+                         'x1999y2000zqwer', 'qwer#bob@aol.com#asdf', 'a@b.com12qwerty12', '1qaz#1x<3qwer', 'zxcvwww.a.org!asdf1999']
 FRESH_LENGTHS_CORPUS = ['sun12tiger345', 'ab!cdef!!', 'hello', 'sun', 'tiger', '12', '345', 'xy7', 'Sun12', 'TIGER345']
 YEARS = ['1999', '2000', '2012', '1987', '2024', '1900', '2099', '19', '20', '199', '20123', '12019']
 TLDS = ['.com', '.org', '.net', '.de', '.ru', '.uk', '.nl.se', '.mil']
